@@ -56,6 +56,21 @@ func (core *JApiCore) drainCurrentScanner() *jerr.JApiError {
 
 // simply decides which function to call based on lexeme type
 func (core *JApiCore) next(lexeme scanner.Lexeme) *jerr.JApiError {
+	if core.currentDirective == nil {
+		// There is no directive these lexemes could belong to: the file starts with them, or
+		// they follow a closing parenthesis or the parameter of an INCLUDE.
+		switch lexeme.Type() { //nolint:exhaustive // Only lexemes that need a directive.
+		case scanner.Parameter:
+			return core.japiError(
+				fmt.Sprintf("%s %q", jerr.IncorrectParameter, lexeme.Value().Unquote().String()),
+				lexeme.Begin())
+		case scanner.Annotation:
+			return core.japiError(jerr.AnnotationIsForbiddenForTheDirective, lexeme.Begin())
+		case scanner.Schema, scanner.Text, scanner.Json, scanner.Enum, scanner.ContextExplicitOpening:
+			return core.japiError(jerr.IncorrectDirectiveContext, lexeme.Begin())
+		}
+	}
+
 	switch lexeme.Type() {
 	case scanner.Keyword:
 		return core.processKeyword(lexeme)
